@@ -48,6 +48,14 @@ func MkdirAll(path string, uid, gid int, doChown bool, dirPerm fs.FileMode) erro
 		j--
 	}
 
+	if j == 0 {
+		// A relative path of one element is a bucket directory. Only
+		// CreateBucket makes those: an upload that finds its bucket gone
+		// (a concurrent DeleteBucket) must fail, not bring back a bucket
+		// without owner and settings.
+		return s3err.GetAPIError(s3err.ErrNoSuchBucket)
+	}
+
 	if j > 1 {
 		// Create parent.
 		err = MkdirAll(path[:j-1], uid, gid, doChown, dirPerm)
